@@ -782,11 +782,7 @@ func (x *Exec) switchClauses(s *ast.SwitchStmt, st *State) []*State {
 			deflt = cc
 			continue
 		}
-		for _, fs := range cc.Body {
-			if b, ok := fs.(*ast.BranchStmt); ok && b.Tok == token.FALLTHROUGH {
-				engineFail("fallthrough is outside the supported subset")
-			}
-		}
+
 		var nextRest []*State
 		for _, r := range rest {
 			// guards are evaluated in order; each may need hoisting (tagless switch with calls)
@@ -815,7 +811,7 @@ func (x *Exec) switchClauses(s *ast.SwitchStmt, st *State) []*State {
 						t := h.clone()
 						t.assume(cond)
 						t.trace = append(t.trace, traceLabel(g))
-						out = append(out, x.execBlock(cc.Body, t)...)
+						out = append(out, x.execClauseBody(s, cc, t)...)
 						h.assume(not(cond))
 						nxt = append(nxt, h)
 					}
@@ -829,7 +825,7 @@ func (x *Exec) switchClauses(s *ast.SwitchStmt, st *State) []*State {
 	for _, r := range rest {
 		if deflt != nil {
 			r.trace = append(r.trace, "default")
-			out = append(out, x.execBlock(deflt.Body, r)...)
+			out = append(out, x.execClauseBody(s, deflt, r)...)
 		} else {
 			out = append(out, r)
 		}
@@ -910,4 +906,38 @@ func traceLabel(e ast.Expr) string {
 	t = strings.TrimPrefix(t, "reflect.")
 	t = strings.ReplaceAll(t, " ", "")
 	return t
+}
+
+// execClauseBody runs a case body; a trailing fallthrough continues with the next clause's body.
+func (x *Exec) execClauseBody(s *ast.SwitchStmt, cc *ast.CaseClause, st *State) []*State {
+	body := cc.Body
+	ft := false
+	if n := len(body); n > 0 {
+		if b, ok := body[n-1].(*ast.BranchStmt); ok && b.Tok == token.FALLTHROUGH {
+			ft = true
+			body = body[:n-1]
+		}
+	}
+	outs := x.execBlock(body, st)
+	if !ft {
+		return outs
+	}
+	var next *ast.CaseClause
+	for i, cl := range s.Body.List {
+		if cl == ast.Stmt(cc) && i+1 < len(s.Body.List) {
+			next = s.Body.List[i+1].(*ast.CaseClause)
+		}
+	}
+	if next == nil {
+		return outs
+	}
+	var res []*State
+	for _, o := range outs {
+		if o.out != outNormal {
+			res = append(res, o)
+			continue
+		}
+		res = append(res, x.execClauseBody(s, next, o)...)
+	}
+	return res
 }
